@@ -1593,15 +1593,10 @@ struct const_subarray : array_types<T, D, ElementPtr, Layout> {
 	constexpr auto addressof_aux_() const {return ptr(this->base_, this->layout());}
 
  public:
-	constexpr auto addressof()     && ->       ptr { return addressof_aux_(); }
-	constexpr auto addressof()      & ->       ptr { return addressof_aux_(); }
 	constexpr auto addressof() const& -> const_ptr { return addressof_aux_(); }
 
 	// NOLINTBEGIN(google-runtime-operator) //NOSONAR
 	// operator& is not defined for r-values anyway
-	constexpr auto operator&()     && { return addressof(); }  // NOLINT(runtime/operator) //NOSONAR
-	// [[deprecated("controversial")]]
-	constexpr auto operator&()      & { return addressof(); }  // NOLINT(runtime/operator) //NOSONAR
 	// [[deprecated("controversial")]]
 	constexpr auto operator&() const& { return addressof(); }  // NOLINT(runtime/operator) //NOSONAR
 	// NOLINTEND(google-runtime-operator)
@@ -1953,6 +1948,10 @@ class subarray : public const_subarray<T, D, ElementPtr, Layout> {
 	#endif
 
 	using const_subarray<T, D, ElementPtr, Layout>::operator&;
+
+	constexpr auto addressof()     && -> ptr { return ptr(this->base_, this->layout()); }
+	constexpr auto addressof()      & -> ptr { return ptr(this->base_, this->layout()); }
+	constexpr auto addressof() const& -> subarray_ptr<T, D, ElementPtr, Layout, true> { return ptr(this->base_, this->layout()); }
 	// NOLINTNEXTLINE(runtime/operator)
 	// BOOST_MULTI_HD constexpr auto operator&() const& {return subarray_ptr<const_subarray, Layout>{this->base_, this->layout()};}  // NOLINT(google-runtime-operator) extend semantics  //NOSONAR
 
